@@ -173,6 +173,10 @@ func (d *Downstream) notifyClosedWithError(cause error) {
 
 // ReadDataPointsは、ダウンストリームデータポイントを受信します。
 func (d *Downstream) ReadDataPoints(ctx context.Context) (*DownstreamChunk, error) {
+	if d.isClosed() {
+		// closed wins over items that are still queued (the select below picks among ready cases at random)
+		return nil, errors.ErrStreamClosed
+	}
 	select {
 	case <-d.ctx.Done():
 		return nil, errors.ErrStreamClosed
@@ -199,6 +203,9 @@ func (d *Downstream) ReadDataPoints(ctx context.Context) (*DownstreamChunk, erro
 
 // ReadMetadataは、ダウンストリームメタデータを受信します。
 func (d *Downstream) ReadMetadata(ctx context.Context) (*DownstreamMetadata, error) {
+	if d.isClosed() {
+		return nil, errors.ErrStreamClosed
+	}
 	select {
 	case <-d.ctx.Done():
 		return nil, errors.ErrStreamClosed
